@@ -3,6 +3,7 @@ package main
 import (
 	"fmt"
 	"math"
+	"time"
 
 	"github.com/sahandsafizadeh/qeep/component/initializers"
 	"github.com/sahandsafizadeh/qeep/component/layers"
@@ -235,11 +236,14 @@ func c09ArgTensors(shapes [][]int) []argTensor {
 }
 
 func checkC09(c *core.Ctx) {
+	if c.Thorough() && c.CaseTimeout < 10*time.Minute {
+		c.CaseTimeout = 10 * time.Minute // one case = one entry-point group over the whole argument space
+	}
 	recvShapes := enum.Shapes(3, []int{1, 2, 3})
 	argShapes := enum.Shapes(3, []int{1, 2, 3})
 	intVals := []int{-2, -1, 0, 1, 2, 3, 4, 6}
 	if c.Thorough() {
-		recvShapes = append(enum.Shapes(4, []int{1, 2, 3}), enum.Shapes(5, []int{1, 2})[63:]...)
+		recvShapes = append(enum.Shapes(4, []int{1, 2, 3}), enum.Shapes(5, []int{1, 2})[31:]...) // the 32 rank-5 shapes
 		argShapes = enum.Shapes(4, []int{1, 2})
 		argShapes = append(argShapes, enum.Shapes(3, []int{1, 2, 3})...)
 		intVals = c09Ints
@@ -547,6 +551,10 @@ func checkC09(c *core.Ctx) {
 							if !finite || math.IsNaN(a) {
 								vn = vUnspecified
 							}
+						}
+						if (math.IsNaN(a) || math.IsNaN(b)) && dimsValid(d) && cf.valid {
+							// NaN parameters are outside the stated argument domain: no panic is all that is demanded
+							vu, vn = vUnspecified, vUnspecified
 						}
 						exp := d
 						if exp == nil {
@@ -1076,6 +1084,9 @@ func c09Components(c *core.Ctx, group func(string, func(*totalCtx) string)) {
 					if math.IsInf(b, 0) || math.IsNaN(a) || math.IsInf(a, 0) {
 						vn = vUnspecified
 					}
+				}
+				if math.IsNaN(a) || math.IsNaN(b) {
+					vu, vn = vUnspecified, vUnspecified
 				}
 				if m := try(fmt.Sprintf("Uniform(%v,%v)", a, b), vu, func() (ini, error) {
 					return nilIfErr(initializers.NewUniform(&initializers.UniformConfig{Lower: a, Upper: b}))
